@@ -2,6 +2,11 @@
   C09 — helper lemmas (loop invariant, stop characterisation, list sums, repair loop).
 -/
 import PercevalModel.Model.C09
+import Mathlib.Algebra.Order.Field.Rat
+import Mathlib.Tactic.FieldSimp
+import Mathlib.Tactic.Positivity
+import Mathlib.Tactic.Linarith
+import Mathlib.Tactic.Ring
 
 set_option linter.unusedSimpArgs false
 
@@ -215,7 +220,8 @@ theorem getD_keys_lt (cs : List Int) (keys : List Nat) (hkeys : ∀ k ∈ keys, 
 theorem getD_nonneg (cs : List Int) (h : ∀ c ∈ cs, 0 ≤ c) (k : Nat) : 0 ≤ cs.getD k 0 := by
   by_cases hk : k < cs.length
   · rw [getD_eq_getElem' _ _ hk]; exact h _ (List.getElem_mem hk)
-  · rw [getD_eq_default' _ _ (by omega)]; omega
+  · have := getD_eq_default' cs (0 : Int) (i := k) (by omega)
+    omega
 
 theorem set_nonneg (cs : List Int) (h : ∀ c ∈ cs, 0 ≤ c) (k : Nat) (v : Int) (hv : 0 ≤ v) :
     ∀ c ∈ cs.set k v, 0 ≤ c := by
@@ -337,5 +343,94 @@ theorem repairHigh_fair (keys : List Nat) (picks : List Nat) :
             rcases List.mem_cons.1 hq with rfl | hq
             · exact absurd (hkdef.symm.trans hq') e
             · exact ⟨q, hq, hq'⟩
+
+/-! ### rationals: rounding, perturbation, normalisation -/
+
+theorem floor_le_roundHalfEven (x : ℚ) : x.floor ≤ roundHalfEven x := by
+  unfold roundHalfEven
+  simp only
+  split
+  · omega
+  · split
+    · omega
+    · split <;> omega
+
+theorem roundHalfEven_nonneg (x : ℚ) (h : 0 ≤ x) : 0 ≤ roundHalfEven x := by
+  have h1 : (0 : ℤ) ≤ x.floor := Rat.le_floor_iff.2 (by simpa using h)
+  have := floor_le_roundHalfEven x
+  omega
+
+theorem one_le_roundHalfEven (x : ℚ) (h : 1 ≤ x) : 1 ≤ roundHalfEven x := by
+  have h1 : (1 : ℤ) ≤ x.floor := Rat.le_floor_iff.2 (by simpa using h)
+  have := floor_le_roundHalfEven x
+  omega
+
+theorem perturb_nonneg : ∀ (ps ns : List ℚ), ∀ x ∈ perturb ps ns, 0 ≤ x
+  | [], _ => by intro x hx; simp [perturb] at hx
+  | _ :: _, [] => by intro x hx; simp [perturb] at hx
+  | p :: ps, n :: ns => by
+    intro x hx
+    simp only [perturb, List.mem_cons] at hx
+    rcases hx with rfl | hx
+    · exact le_max_right _ _
+    · exact perturb_nonneg ps ns x hx
+
+theorem sumQ_nonneg (l : List ℚ) (h : ∀ x ∈ l, 0 ≤ x) : 0 ≤ sumQ l := by
+  induction l with
+  | nil => simp [sumQ]
+  | cons x xs ih =>
+    have h1 := h x (by simp)
+    have h2 := ih (fun y hy => h y (by simp [hy]))
+    simp only [sumQ]; linarith
+
+theorem maxQ_mem (l : List ℚ) (h : 0 < maxQ l) : maxQ l ∈ l := by
+  induction l with
+  | nil => simp [maxQ] at h
+  | cons x xs ih =>
+    simp only [maxQ] at h ⊢
+    rcases le_total x (maxQ xs) with hle | hle
+    · rw [max_eq_right hle] at h ⊢
+      exact List.mem_cons_of_mem _ (ih h)
+    · rw [max_eq_left hle]; simp
+
+theorem sumI_nonneg_mem (cs : List ℤ) (h : ∀ c ∈ cs, 0 ≤ c) : 0 ≤ sumI cs := by
+  induction cs with
+  | nil => simp [sumI]
+  | cons x xs ih =>
+    have h1 := h x (by simp)
+    have h2 := ih (fun y hy => h y (by simp [hy]))
+    simp only [sumI]; omega
+
+/-- an entry ≥ 1 makes the key list non-empty -/
+theorem keysOf_ne_nil (cs : List ℤ) (c : ℤ) (hc : c ∈ cs) (h1 : 1 ≤ c) : keysOf cs ≠ [] := by
+  obtain ⟨i, hi, rfl⟩ := List.getElem_of_mem hc
+  intro hnil
+  have : i ∈ keysOf cs := by
+    simp only [keysOf, List.mem_filter, List.mem_range]
+    refine ⟨hi, ?_⟩
+    rw [getD_eq_getElem' _ _ hi]
+    simp; omega
+  rw [hnil] at this; simp at this
+
+theorem keysOf_compl_zero (cs : List ℤ) : ∀ i, i ∉ keysOf cs → cs.getD i 0 = 0 := by
+  intro i hi
+  by_cases hlt : i < cs.length
+  · by_contra hne
+    apply hi
+    simp only [keysOf, List.mem_filter, List.mem_range]
+    exact ⟨hlt, by simpa using hne⟩
+  · exact getD_eq_default' _ _ (by omega)
+
+/-- normalising constants: `Σ probOf tot c = (Σ c) / tot` -/
+theorem sumQ_probOf (tot : ℤ) (cs : List ℤ) :
+    sumQ ((cs.map (probOf tot)).map getQ) = (sumI cs : ℚ) / (tot : ℚ) := by
+  induction cs with
+  | nil => simp [sumQ, sumI]
+  | cons x xs ih =>
+    simp only [List.map_cons, sumQ, sumI, ih]
+    by_cases hx : x = 0
+    · subst hx; simp [probOf, getQ]
+    · simp only [probOf, hx, ↓reduceIte, getQ]
+      push_cast; ring
 
 end PM.C09
